@@ -854,6 +854,34 @@ M('C18', "sequential resume removes 'sequential' with pop (equivalent)", SIM,
   "        simulation_params = {k: v for k, v in options.items() if k != 'sequential'}\n",
   "        simulation_params = dict(options)\n        simulation_params.pop('sequential')\n", None, expect='silent')
 
+M('C18', 'DMRGEngine.reset_stats drops resume_data (round-3 seed b)', 'tenpy/algorithms/dmrg.py',
+  "        super().reset_stats(resume_data)\n        self.update_stats = {",
+  "        super().reset_stats()\n        self.update_stats = {", 'RESUME-forward')
+M('C18', 'DMRGEngine.reset_stats forwards resume_data by keyword (equivalent)', 'tenpy/algorithms/dmrg.py',
+  "        super().reset_stats(resume_data)\n        self.update_stats = {",
+  "        super().reset_stats(resume_data=resume_data)\n        self.update_stats = {", None, expect='silent')
+M('C18', 'TEBD engine constructor drops **kwargs (resume_data, cache)', TEBD,
+  "        TimeEvolutionAlgorithm.__init__(self, psi, model, options, **kwargs)",
+  "        TimeEvolutionAlgorithm.__init__(self, psi, model, options)", 'RESUME-forward')
+M('C18', 't=0 operator applied whenever operator_t0 is unset (round-3 seed a)',
+  'tenpy/simulations/time_evolution.py', """            self.psi = self.psi_ground_state.copy()
+            self.apply_operator_t0_to_psi()
+""", """            self.psi = self.psi_ground_state.copy()
+        if self.operator_t0 is None:
+            self.apply_operator_t0_to_psi()
+""", 'RESUME-init-once')
+M('C18', 't=0 operator applied under the flipped test with else (equivalent)',
+  'tenpy/simulations/time_evolution.py', """        if not hasattr(self, 'psi'):
+            # copy is essential, since time evolution is probably only performed on psi
+            self.psi = self.psi_ground_state.copy()
+            self.apply_operator_t0_to_psi()
+""", """        if hasattr(self, 'psi'):
+            pass
+        else:
+            self.psi = self.psi_ground_state.copy()
+            self.apply_operator_t0_to_psi()
+""", None, expect='silent')
+
 # ---------------------------------------------------------------- C16 / C19
 M('C16', 'GMRES restart: relative residual norm used for normalisation (round-3 seed b)', KRY,
   """        self.total_error.append([npc.norm(self.rs[-1]) / self.b_norm])
